@@ -18,6 +18,7 @@ def run(ctx):
     R.r2_value_equality(ctx, closure)
     R.r3_interruption_points(ctx)
     R.r5_no_global_state(ctx)
+    R.r5b_no_class_level_state(ctx, closure)
     # state rewritten in place by a specification check (which runs between packets, i.e. at
     # every possible interruption point) must be loss-free
     from ..engines import labelkind as LK
